@@ -71,6 +71,9 @@ func c16Gen(r *Rng, tier string, idx int) (string, func() string) {
 		caseTimeout = 240 * time.Second
 	}
 	c16Facts()
+	if idx%60 == 13 {
+		return c16GenT(r, tier, idx)
+	}
 	switch k := idx % 10; {
 	case k < 3:
 		if idx%20 < 10 && k == 2 || r.Chance(12) {
@@ -1325,11 +1328,17 @@ func c16ChildMain() {
 			c16ChildRejected(t, mainf)
 		}
 	}
+	if spec.Kind == "T2" {
+		c16ChildStartDuringSave(spec) // never returns
+	}
 	last := map[string]interface{}{}
 	for j := 1; j <= spec.Saves; j++ {
 		var vals map[string]interface{}
 		if spec.Kind == "R" {
 			vals = c16TypedValues(NewRng(spec.Seed)).asMap()
+		} else if spec.Kind == "T" {
+			_, trig := c16TValues(spec.Seed)
+			vals = map[string]interface{}{"TRIGGER": trig, "STATELABEL": "earlier run"}
 		} else {
 			vals = c16SaveValuesK(spec.Seed, j)
 		}
@@ -1886,6 +1895,198 @@ func c16TypedValues(r *Rng) *c16Typed {
 	return t
 }
 
+// c16TriggersMatch: every channel (< nchan) of the saved trigger groups has the saved settings in `got`
+// (EdgeMulti and its parameters excluded: deliberately not restored, issue #271).
+func c16TriggersMatch(saved []dastard.FullTriggerState, nchan int, gotGroups []dastard.FullTriggerState) bool {
+	got := map[int]dastard.TriggerState{}
+	for _, f := range gotGroups {
+		for _, c := range f.ChannelIndices {
+			got[c] = f.TriggerState
+		}
+	}
+	strip := func(ts dastard.TriggerState) dastard.TriggerState {
+		ts.EdgeMulti = false
+		ts.EMTBackwardCompatibleRPCFields = dastard.EMTBackwardCompatibleRPCFields{}
+		ts.EMTState = dastard.EMTState{}
+		return ts
+	}
+	for _, f := range saved {
+		for _, c := range f.ChannelIndices {
+			if c >= nchan {
+				continue
+			}
+			g, have := got[c]
+			if !have || c16JSON(strip(g)) != c16JSON(strip(f.TriggerState)) {
+				return false
+			}
+		}
+	}
+	return true
+}
+
+// ---------------------------------------------------------------------------------------------
+// T: a source is started WHILE a save is in progress
+
+// c16TValues: channels and non-default trigger groups that cover at least channel 0.
+func c16TValues(seed uint64) (int, []dastard.FullTriggerState) {
+	r := NewRng(seed)
+	nchan := r.Range(1, 8)
+	var trig []dastard.FullTriggerState
+	next := 0
+	for g, ng := 0, r.Range(1, 3); g < ng && next < nchan; g++ {
+		var fts dastard.FullTriggerState
+		for n := r.Range(1, 3); n > 0 && next < nchan; n-- {
+			fts.ChannelIndices = append(fts.ChannelIndices, next)
+			next++
+		}
+		ts := &fts.TriggerState
+		ts.AutoTrigger = true // differs from the default (all triggers off)
+		ts.AutoDelay = time.Duration(r.Pick(1000000, 250000000, 1000000001))
+		ts.LevelTrigger = r.Bool()
+		ts.LevelLevel = dastard.RawType(1000 + 100*g + r.Intn(50))
+		ts.EdgeTrigger = r.Bool()
+		ts.EdgeRising = r.Bool()
+		ts.EdgeLevel = int32(200 + g)
+		trig = append(trig, fts)
+	}
+	return nchan, trig
+}
+
+type c16TReport struct {
+	Err      string
+	Waited   bool // the start had not finished 300 ms after it began, while the save was held inside saveState
+	Started  bool // the start finished once the save was released
+	Triggers []dastard.FullTriggerState
+}
+
+// c16ChildStartDuringSave (child process = "the next run of dastard"): the configuration read at start-up
+// holds the saved triggers; a save is held at a step boundary INSIDE the real saveState (observer at the
+// verifC16Point site); meanwhile a source is started (the real Sample/PrepareChannels/PrepareRun); then the
+// save is released.  Afterwards the trigger state of the started source is published as SourceControl.Start
+// does, i.e. it reaches the next save.
+func c16ChildStartDuringSave(spec c16ChildSpec) {
+	var rep c16TReport
+	finish := func() {
+		b, _ := json.Marshal(rep)
+		os.WriteFile(os.Getenv("DVH_C16_OUT"), b, 0664)
+		os.Exit(0)
+	}
+	nchan, _ := c16TValues(spec.Seed)
+	inSave, release, saveDone, startDone := make(chan struct{}), make(chan struct{}), make(chan struct{}), make(chan struct{})
+	var once sync.Once
+	dastard.VerifC16OnPoint(func(site string) {
+		if site == spec.CrashSite {
+			first := false
+			once.Do(func() { first = true; close(inSave) })
+			if first {
+				<-release
+			}
+		}
+	})
+	go func() {
+		dastard.VerifC16SaveState(map[string]interface{}{"STATELABEL": "save in progress"})
+		close(saveDone)
+	}()
+	select {
+	case <-inSave:
+	case <-time.After(5 * time.Second):
+		rep.Err = "site-not-reached"
+		finish()
+	}
+	vs := dastard.NewVerifSource(nchan, 10000)
+	var perr error
+	go func() { perr = vs.VerifPrepare(100, 400); close(startDone) }()
+	select {
+	case <-startDone:
+	case <-time.After(300 * time.Millisecond):
+		rep.Waited = true
+	}
+	close(release)
+	select {
+	case <-saveDone:
+	case <-time.After(5 * time.Second):
+		rep.Err = "save-stuck"
+		finish()
+	}
+	select {
+	case <-startDone:
+		rep.Started = true
+	case <-time.After(5 * time.Second):
+		finish()
+	}
+	dastard.VerifC16OnPoint(nil)
+	if perr != nil {
+		rep.Err = "prepare-error"
+		finish()
+	}
+	rep.Triggers = vs.ComputeFullTriggerState()
+	dastard.VerifC16SaveState(map[string]interface{}{"TRIGGER": rep.Triggers})
+	finish()
+}
+
+func c16GenT(r *Rng, tier string, idx int) (string, func() string) {
+	facts := c16Facts()
+	seed := r.U64() >> 8
+	nchan, trig := c16TValues(seed)
+	site := "-"
+	if len(facts.sites) > 0 {
+		site = facts.sites[r.Intn(len(facts.sites))]
+	}
+	nset := 0
+	for _, f := range trig {
+		nset += len(f.ChannelIndices)
+	}
+	sum := sha1.Sum([]byte(c16JSON(trig)))
+	in := fmt.Sprintf("T nch %d ngroups %d nset %d site %s h %s", nchan, len(trig), nset, site, hex.EncodeToString(sum[:6]))
+	run := func() string {
+		if site == "-" {
+			return "HARNESS-ERROR no-site"
+		}
+		home := filepath.Join(c16Work(), fmt.Sprintf("t%d_%d", idx, os.Getpid()))
+		os.RemoveAll(home)
+		defer os.RemoveAll(home)
+		os.MkdirAll(filepath.Join(home, ".dastard"), 0775)
+		os.WriteFile(filepath.Join(home, ".dastard", "config.yaml"), nil, 0664)
+		// an earlier run persisted the trigger settings
+		if code, se := c16RunChild(home, c16ChildSpec{Kind: "T", Seed: seed, Idx: idx, Saves: 1}); code != 0 {
+			return fmt.Sprintf("HARNESS-ERROR persist-child %d %s", code, hexStr(se))
+		}
+		// this run: a source is started during a save
+		outf := filepath.Join(home, "t.json")
+		self, _ := os.Executable()
+		b, _ := json.Marshal(c16ChildSpec{Kind: "T2", Seed: seed, Idx: idx, CrashSite: site})
+		cmd := exec.Command(self)
+		cmd.Env = append(os.Environ(), "DVH_C16_CHILD=save", "HOME="+home, "DVH_C16_SPEC="+string(b), "DVH_C16_OUT="+outf)
+		var se bytes.Buffer
+		cmd.Stderr = &se
+		if err := cmd.Run(); err != nil {
+			return "PANIC " + panicClass(se.String())
+		}
+		var rep c16TReport
+		if rb, err := os.ReadFile(outf); err != nil || json.Unmarshal(rb, &rep) != nil {
+			return "HARNESS-ERROR no-report"
+		}
+		if rep.Err != "" {
+			return "HARNESS-ERROR " + rep.Err
+		}
+		if !rep.Started {
+			return fmt.Sprintf("waited %d started 0 trig 0 persisted 0", b2i(rep.Waited))
+		}
+		trigOK := c16TriggersMatch(trig, nchan, rep.Triggers)
+		// the next start-up: what do the saved triggers look like now?
+		su, err := c16RunStartup(home, "restore", nchan)
+		if err != nil {
+			return "HARNESS-ERROR restore " + hexStr(err.Error())
+		}
+		if su.exit != 0 {
+			return "PANIC " + panicClass(su.stderr)
+		}
+		persisted := su.Err == "" && su.PrepErr == "" && c16TriggersMatch(trig, nchan, su.Triggers)
+		return fmt.Sprintf("waited %d started 1 trig %d persisted %d", b2i(rep.Waited), b2i(trigOK), b2i(persisted))
+	}
+	return in, run
+}
+
 func c16Uniq(xs []int) []int {
 	var out []int
 	for i, x := range xs {
@@ -2062,30 +2263,8 @@ func c16CompareRestored(t *c16Typed, su c16Startup) string {
 		if su.PrepErr != "" {
 			ok = 0
 		}
-		got := map[int]dastard.TriggerState{}
-		for _, f := range su.Triggers {
-			for _, c := range f.ChannelIndices {
-				got[c] = f.TriggerState
-			}
-		}
-		strip := func(ts dastard.TriggerState) dastard.TriggerState {
-			ts.EdgeMulti = false
-			ts.EMTBackwardCompatibleRPCFields = dastard.EMTBackwardCompatibleRPCFields{}
-			ts.EMTState = dastard.EMTState{}
-			return ts
-		}
-		nset := 0
-		for _, f := range t.Trig {
-			for _, c := range f.ChannelIndices {
-				if c >= t.Nchan {
-					continue
-				}
-				nset++
-				g, have := got[c]
-				if !have || c16JSON(strip(g)) != c16JSON(strip(f.TriggerState)) {
-					ok = 0
-				}
-			}
+		if !c16TriggersMatch(t.Trig, t.Nchan, su.Triggers) {
+			ok = 0
 		}
 		fmt.Fprintf(&sb, " trigger %d", ok)
 	}
